@@ -313,8 +313,8 @@ def sess_c17_mono(seed):
 # ------------------------------------------------------------------------------------------------
 # C07
 # ------------------------------------------------------------------------------------------------
-def sess_c07(seed, profile='kern_only', mixed=False, sigs=False):
-    over = dict(max_rows=26, hidden_bars=False, mid_sigs=False, opening_bar=0.5, final_bar=0.6, max_spines=3)
+def sess_c07(seed, profile='kern_only', mixed=False, sigs=False, hidden=False):
+    over = dict(max_rows=26, hidden_bars=hidden, mid_sigs=False, opening_bar=0.5, final_bar=0.6, max_spines=3)
     if mixed:
         over.update(kern_only=False, first_kern=1.0, nonkern_sigs=0.15 if sigs else 0)
     r, lines, types = make_doc(seed, profile, **over)
@@ -339,7 +339,7 @@ def sess_c07(seed, profile='kern_only', mixed=False, sigs=False):
     tags = features(lines)
     if mixed:
         tags.add('mixed-export-kern-only')
-    return finish_session(lines, evs, text, seed, tags, gen.range_classes(lines) if sigs else ())
+    return finish_session(lines, evs, text, seed, tags, gen.range_classes(lines) if sigs else ())       # + doc_classes (hidden_barline)
 
 
 # ------------------------------------------------------------------------------------------------
